@@ -2,7 +2,7 @@
 
 ENGINES = [
     dict(name='symx', path='/verif/symx',
-         serves_properties=['C01', 'C02', 'C03', 'C04', 'C05', 'C06', 'C07', 'C10', 'C12', 'C13', 'C16', 'C17', 'C20'],
+         serves_properties=['C01', 'C02', 'C03', 'C04', 'C05', 'C06', 'C07', 'C10', 'C11', 'C12', 'C13', 'C14', 'C16', 'C17', 'C20'],
          kind_free_text='symbolic execution of the real emsarray functions on numpy/xarray object arrays of z3-backed '
                         'scalars; fork-by-re-execution path explorer; every path closed by z3 verdict queries and a '
                         'concrete replay of a model on the unmodified stack'),
@@ -164,6 +164,30 @@ CHECKS = {
         note='blake2b collision resistance and marshal injectivity are assumed. marshal.dumps is modelled as value + '
              'unconstrained sharing context; the resulting determinism counterexample reproduces on real datasets and is a '
              'known finding.',
+    ),
+    'C11': dict(
+        engine='symx',
+        technique='symbolic execution of the real registry / detectors / binding code: specificities are unbounded z3 Ints (the sort forks on comparisons), attribute strings range over finite universes, histories are chosen by symbolic selectors',
+        text='Registry: for every registration order of up to 3+3 conventions, each matching or not with any Int specificity, '
+             'z3 shows the chosen class is a maximal match, manual registrations win ties, the choice is repeatable and '
+             'unaffected by non-matching registrations, none => None. Detectors: UGRID iff marker and mesh role and '
+             'topology_dimension == 2 (any Int); CF iff latitude and longitude identifiable; SHOC over CF. Binding: all '
+             'histories of length 3-4 over the five operations.',
+        design_ref='DESIGN.md section 4, C11',
+        note='String attributes range over finite spelling universes; entry points are stubbed in the registry part. The '
+             'history part has a tiny state space: the solver only drives the case split.',
+    ),
+    'C14': dict(
+        engine='symx',
+        technique='symbolic execution of the real fan and ear-clipping kernels on symbolic vertex coordinates; z3 nonlinear real arithmetic (nlsat) decides area and orientation identities; GEOS ear predicates are symbolic Bools',
+        text='Fan: for n = 3..8 and arbitrary real vertices z3 shows n-2 triangles (v0, vi, vi+1), signed areas adding up, '
+             'and for strictly convex polygons every triangle oriented like the polygon. Ear clipping: for every pattern '
+             'of accepted ears z3 shows n-2 triangles of consecutive ring vertices, the ring shrinking, areas adding up. '
+             'triangulate_dataset is validated with an exact-cover oracle on real meshes and grids (holes, concave, '
+             'collinear, cw/ccw, 3..8 sides).',
+        design_ref='DESIGN.md section 4, C14',
+        note='That an accepted ear lies inside a concave cell (GEOS) and the pandas de-duplication / join are validated on '
+             'witnesses only. Two-ears theorem assumed.',
     ),
 }
 
